@@ -105,7 +105,8 @@ def build(extra_mods=(), force_assumed=()):
         gp = os.path.join(VERIF, 'spec', 'mod_%s.vrs' % m)
         if os.path.exists(gp):
             ghost += '\n// ---- ghost additions (G1) from spec/mod_%s.vrs\n' % m + open(gp).read()
-        chunks.append('pub mod %s {\nuse vstd::prelude::*;\nuse crate::iso::*;\nverus! {\n%s\n%s\n}\n}\n' % (m, spliced, ghost))
+        globs = ''.join('use crate::%s::*;\n' % o for o in mods if o != m)
+        chunks.append('pub mod %s {\nuse vstd::prelude::*;\nuse crate::iso::*;\n%sverus! {\n%s\n%s\n}\n}\n' % (m, globs, spliced, ghost))
     chunks.append('verus! {\n' + open(os.path.join(VERIF, 'spec', 'prelude.vrs')).read() + '\n}\nfn main() {}\n')
     text = ''.join(chunks)
     if not insertion_only:
